@@ -1,6 +1,7 @@
 package props
 
 import (
+	"go/constant"
 	"go/types"
 
 	"golang.org/x/tools/go/ssa"
@@ -80,6 +81,97 @@ func appendedPayload(call *ssa.Call) (ssa.Value, bool) {
 	return v, true
 }
 
+// formattedPieces: for fmt.Appendf(dst, format, args...) / fmt.Fprintf(w, format, args...)
+// with a constant format made of literal text and plain %s / %v verbs only, the
+// pieces written, in order: the literal chunks (as constants) and the operands.
+func formattedPieces(cc *ssa.CallCommon) ([]ssa.Value, bool) {
+	if !ir.IsCallTo(cc, "fmt.Appendf", "fmt.Fprintf") || len(cc.Args) != 3 {
+		return nil, false
+	}
+	format, ok := constString(cc.Args[1])
+	if !ok {
+		return nil, false
+	}
+	// the operands: a fresh array filled with interface conversions
+	var ops []ssa.Value
+	if sl, isSl := cc.Args[2].(*ssa.Slice); isSl {
+		al, isAl := sl.X.(*ssa.Alloc)
+		if !isAl {
+			return nil, false
+		}
+		byIdx := map[int64]ssa.Value{}
+		for _, r := range *al.Referrers() {
+			ia, isIA := r.(*ssa.IndexAddr)
+			if !isIA {
+				continue
+			}
+			k, isK := ir.ConstInt(ia.Index)
+			if !isK {
+				return nil, false
+			}
+			for _, r2 := range *ia.Referrers() {
+				if st, isSt := r2.(*ssa.Store); isSt {
+					v := st.Val
+					if mi, isMI := v.(*ssa.MakeInterface); isMI {
+						v = mi.X
+					}
+					byIdx[k] = v
+				}
+			}
+		}
+		for i := int64(0); i < int64(len(byIdx)); i++ {
+			v, has := byIdx[i]
+			if !has {
+				return nil, false
+			}
+			ops = append(ops, v)
+		}
+	} else if k, isK := cc.Args[2].(*ssa.Const); !isK || !k.IsNil() {
+		return nil, false
+	}
+	var out []ssa.Value
+	lit := ""
+	flush := func() {
+		if lit != "" {
+			out = append(out, ssa.NewConst(constant.MakeString(lit), types.Typ[types.String]))
+			lit = ""
+		}
+	}
+	next := 0
+	for i := 0; i < len(format); i++ {
+		if format[i] != '%' {
+			lit += string(format[i])
+			continue
+		}
+		if i+1 >= len(format) {
+			return nil, false
+		}
+		i++
+		switch format[i] {
+		case '%':
+			lit += "%"
+		case 's', 'v':
+			if next >= len(ops) {
+				return nil, false
+			}
+			// %s writes a string or byte slice as it is; %v does so for a string only
+			if b, isB := ops[next].Type().Underlying().(*types.Basic); !(isB && b.Info()&types.IsString != 0) && !(format[i] == 's' && isByteSlice(ops[next].Type())) {
+				return nil, false
+			}
+			flush()
+			out = append(out, ops[next])
+			next++
+		default:
+			return nil, false // a verb that reformats its operand
+		}
+	}
+	flush()
+	if next != len(ops) {
+		return nil, false
+	}
+	return out, true
+}
+
 // emitsOf lists the pieces of output of f (see emit), looking through private
 // helpers up to two levels deep. encs are the encoder functions themselves:
 // calls to them produce checked results, not pieces.
@@ -104,6 +196,12 @@ func emitsRec(c *chk.Ctx, f *ssa.Function, encs map[*ssa.Function]bool, depth in
 				out = append(out, emit{at: ins, inner: ins, arg: v, chain: []ssa.Instruction{ins}})
 				return
 			}
+		}
+		if parts, ok := formattedPieces(cc); ok {
+			for _, v := range parts {
+				out = append(out, emit{at: ins, inner: ins, arg: v, chain: []ssa.Instruction{ins}})
+			}
+			return
 		}
 		h := cc.StaticCallee()
 		if h == nil || !c.P.InRepo[h] || encs[h] || h == f || depth >= 2 || len(h.Blocks) == 0 {
